@@ -382,6 +382,18 @@ func runProg(p Prog, res *ChildResult) *vlib.Failure {
 		return vlib.Failf("hang@Writer.Close", "Close did not return:\n%s", allStacks())
 	}
 	res.CloseSeconds = time.Since(t0).Seconds()
+	// every item loaded through the directory was released exactly once, whatever the writer was
+	// doing when Close arrived (all readers of this program are closed by now)
+	if op, cl, dbl := rr.Dir.OpenHandles(); op != cl || dbl != 0 {
+		return vlib.Failf("handle-pairing-after-close", "Close (gate %q) returned but of %d items loaded through the directory %d were closed once and %d more than once", p.GatedClose, op, cl, dbl)
+	}
+	if ents, err := os.ReadDir("/proc/self/fd"); err == nil {
+		for _, e := range ents {
+			if t, err := os.Readlink(filepath.Join("/proc/self/fd", e.Name())); err == nil && strings.HasPrefix(t, dir+"/") {
+				return vlib.Failf("descriptor-leak-after-close", "Close (gate %q) returned but %s is still open", p.GatedClose, t)
+			}
+		}
+	}
 	if os.Getenv("C15_DBG") != "" {
 		fmt.Println(strings.Join(gates.LogTail(200), "\n"))
 	}
